@@ -17,9 +17,13 @@ package c04
 // only: flow actions and ctl are outside Determinism.v, no Coq term is emitted.
 
 import (
+	"bytes"
 	"encoding/json"
 	"fmt"
 	"math/rand"
+	"mime/multipart"
+	"os"
+	"path/filepath"
 	"sort"
 	"strings"
 
@@ -32,7 +36,11 @@ type sreqJ struct {
 	Get     [][2]string `json:"get,omitempty"`
 	Post    [][2]string `json:"post,omitempty"`
 	Headers [][2]string `json:"headers,omitempty"`
-	NoCT    bool        `json:"no_content_type,omitempty"` // body sent without Content-Type (only ctl:forceRequestBodyVariable parses it)
+	NoCT    bool        `json:"no_content_type,omitempty"`
+	// multipart upload: form fields come from Post, plus these file parts (name, filename, content)
+	Files         [][3]string `json:"files,omitempty"`
+	DeleteUploads bool        `json:"delete_uploads_before_close,omitempty"` // the stored temp files vanish before Close (a tmp cleaner)
+	DeleteSpill   bool        `json:"delete_spill_before_close,omitempty"`   // the body buffer's spill file vanishes before Close // body sent without Content-Type (only ctl:forceRequestBodyVariable parses it)
 }
 
 type seriesJSON struct {
@@ -59,11 +67,49 @@ func (o soutcome) canon() string {
 	return string(b)
 }
 
-func runSeriesTx(waf *corazawaf.WAF, rq sreqJ) soutcome {
+type sdirs struct{ upload, tmp string }
+
+func rmGlob(pattern string) int {
+	ms, _ := filepath.Glob(pattern)
+	for _, m := range ms {
+		_ = os.Remove(m)
+	}
+	return len(ms)
+}
+
+func multipartBody(rq sreqJ) (string, []byte) {
+	var buf bytes.Buffer
+	w := multipart.NewWriter(&buf)
+	_ = w.SetBoundary("c04boundary7MA4YWxkTrZu0gW")
+	for _, p := range rq.Post {
+		_ = w.WriteField(p[0], p[1])
+	}
+	for _, f := range rq.Files {
+		fw, err := w.CreateFormFile(f[0], f[1])
+		if err == nil {
+			_, _ = fw.Write([]byte(f[2]))
+		}
+	}
+	_ = w.Close()
+	return w.FormDataContentType(), buf.Bytes()
+}
+
+func runSeriesTx(waf *corazawaf.WAF, rq sreqJ, dirs sdirs, st *sstats) soutcome {
 	tx := waf.NewTransaction()
-	defer tx.Close()
+	defer func() {
+		// what a tmp cleaner / an operator would do between request processing and Close
+		if rq.DeleteUploads {
+			st.uploadsDeleted += rmGlob(filepath.Join(dirs.upload, "crzmp*"))
+		}
+		if rq.DeleteSpill {
+			st.spillsDeleted += rmGlob(filepath.Join(dirs.tmp, "body*"))
+		}
+		if err := tx.Close(); err != nil {
+			st.closeErrors++
+		}
+	}()
 	method := "GET"
-	if len(rq.Post) > 0 {
+	if len(rq.Post) > 0 || len(rq.Files) > 0 {
 		method = "POST"
 	}
 	uri := "/p"
@@ -79,12 +125,20 @@ func runSeriesTx(waf *corazawaf.WAF, rq sreqJ) soutcome {
 	for _, h := range rq.Headers {
 		tx.AddRequestHeader(h[0], h[1])
 	}
-	if len(rq.Post) > 0 && !rq.NoCT {
-		tx.AddRequestHeader("Content-Type", "application/x-www-form-urlencoded")
+	var body []byte
+	if len(rq.Files) > 0 {
+		ct, b := multipartBody(rq)
+		tx.AddRequestHeader("Content-Type", ct)
+		body = b
+	} else if len(rq.Post) > 0 {
+		if !rq.NoCT {
+			tx.AddRequestHeader("Content-Type", "application/x-www-form-urlencoded")
+		}
+		body = []byte(encodePairs(rq.Post))
 	}
 	tx.ProcessRequestHeaders()
-	if len(rq.Post) > 0 {
-		_, _, _ = tx.WriteRequestBody([]byte(encodePairs(rq.Post)))
+	if len(body) > 0 {
+		_, _, _ = tx.WriteRequestBody(body)
 	}
 	_, _ = tx.ProcessRequestBody()
 	tx.AddResponseHeader("Content-Type", "text/html")
@@ -136,7 +190,24 @@ func (rn *runner) runSeries(sj seriesJSON) {
 	if reps < 2*len(sj.Requests)+1 {
 		reps = 2*len(sj.Requests) + 1
 	}
-	long, err := newWAF(sj.Directives)
+	base, derr := os.MkdirTemp("", "c04series")
+	if derr != nil {
+		return
+	}
+	defer os.RemoveAll(base)
+	dirs := sdirs{upload: filepath.Join(base, "upload"), tmp: filepath.Join(base, "tmp")}
+	_ = os.MkdirAll(dirs.upload, 0o755)
+	_ = os.MkdirAll(dirs.tmp, 0o755)
+	text := strings.ReplaceAll(sj.Directives, "@UPLOADDIR@", dirs.upload)
+	mk := func() (*corazawaf.WAF, error) {
+		w, err := newWAF(text)
+		if err == nil {
+			w.TmpDir = dirs.tmp
+		}
+		return w, err
+	}
+	st := &rn.sstats
+	long, err := mk()
 	if err != nil {
 		rn.res.InputDistribution["series_rejected_by_seclang"]++
 		if len(rn.res.Notes) < 3 {
@@ -151,13 +222,13 @@ func (rn *runner) runSeries(sj seriesJSON) {
 	// the reference: every distinct request on its own fresh WAF (twice: the reference itself must be stable)
 	ref := make([]soutcome, len(sj.Requests))
 	for i, rq := range sj.Requests {
-		f1, err1 := newWAF(sj.Directives)
-		f2, err2 := newWAF(sj.Directives)
+		f1, err1 := mk()
+		f2, err2 := mk()
 		if err1 != nil || err2 != nil {
 			return
 		}
-		ref[i] = runSeriesTx(f1, rq)
-		again := runSeriesTx(f2, rq)
+		ref[i] = runSeriesTx(f1, rq, dirs, st)
+		again := runSeriesTx(f2, rq, dirs, st)
 		rn.oracleEvals += 2
 		if ref[i].canon() != again.canon() {
 			c := sj
@@ -169,7 +240,7 @@ func (rn *runner) runSeries(sj seriesJSON) {
 	triggered := 0
 	for i := 0; i < reps; i++ {
 		k := i % len(sj.Requests)
-		got := runSeriesTx(long, sj.Requests[k])
+		got := runSeriesTx(long, sj.Requests[k], dirs, st)
 		rn.oracleEvals++
 		if len(got.Fired) > 0 {
 			triggered++
@@ -274,6 +345,11 @@ func genSeries(r *rand.Rand) seriesJSON {
 			`SecRule ARGS:user "@streq attack" "id:210,phase:2,deny,status:403"`,
 			`SecRule &ARGS "@ge 0" "id:216,phase:2,pass,setvar:tx.nargs=%{MATCHED_VAR}"`,
 			`SecRule REQBODY_ERROR|INBOUND_DATA_ERROR "@eq 1" "id:217,phase:2,pass,setvar:tx.berr=+1"`,
+			`SecRule FILES "@rx ." "id:218,phase:2,pass,setvar:tx.files=+1"`,
+			`SecRule &FILES_TMPNAMES "@ge 0" "id:219,phase:2,pass,setvar:tx.nfiles=%{MATCHED_VAR}"`,
+			`SecRule ARGS:token "@rx ^secret" "id:220,phase:2,pass,setvar:tx.tok=+1,setvar:tx.score=+2"`,
+			`SecRule &REQUEST_COOKIES "@ge 0" "id:221,phase:2,pass,setvar:tx.ncookies=%{MATCHED_VAR}"`,
+			`SecRule REQUEST_BODY_LENGTH "@ge 0" "id:222,phase:2,pass,setvar:tx.blen=%{MATCHED_VAR}"`,
 		},
 		3: {`SecRule REQUEST_METHOD "@rx ." "id:206,phase:3,pass,setvar:tx.p3=+1"`},
 		4: {`SecRule &ARGS "@ge 0" "id:207,phase:4,pass,setvar:tx.p4=+1"`},
@@ -288,9 +364,17 @@ func genSeries(r *rand.Rand) seriesJSON {
 		argLimit = 4 + r.Intn(7)
 		fmt.Fprintf(&b, "SecArgumentsLimit %d\n", argLimit)
 	}
-	if r.Intn(4) == 0 {
+	spill := false
+	switch r.Intn(4) {
+	case 0:
 		fmt.Fprintf(&b, "SecRequestBodyLimit %d\nSecRequestBodyInMemoryLimit %d\nSecRequestBodyLimitAction %s\n", 24+r.Intn(40), 16, []string{"Reject", "ProcessPartial"}[r.Intn(2)])
+	case 1: // bodies above 16 bytes are spilled to a file under the WAF's TmpDir
+		spill = true
+		b.WriteString("SecRequestBodyLimit 100000\nSecRequestBodyInMemoryLimit 16\n")
 	}
+	// multipart uploads are stored under a directory the harness owns (placeholder replaced at run time)
+	uploads := r.Intn(2) == 0
+	b.WriteString("SecUploadDir @UPLOADDIR@\nSecUploadKeepFiles Off\n")
 	id := 10
 	var names []string
 	for ph := 1; ph <= 5; ph++ {
@@ -350,6 +434,24 @@ func genSeries(r *rand.Rand) seriesJSON {
 		s := argSets[r.Intn(len(argSets))]
 		return s[0], s[1]
 	}
+	// a triggering (or plain) transaction that carries a multipart upload; in half of them the stored
+	// temp files vanish before Close, so Close reports an error
+	decorate := func(rq sreqJ, triggering bool) sreqJ {
+		if uploads && (triggering || r.Intn(4) == 0) && r.Intn(3) > 0 {
+			seq++
+			rq.Post = append([][2]string{{"token", fmt.Sprintf("secret%d", seq)}}, rq.Post...)
+			rq.Files = [][3]string{{"f1", fmt.Sprintf("a%d.txt", seq), "file one attack"}}
+			if r.Intn(2) == 0 {
+				rq.Files = append(rq.Files, [3]string{"f2", "b.bin", "second file"})
+			}
+			rq.NoCT = false
+			rq.DeleteUploads = r.Intn(2) == 0
+		}
+		if spill && (len(rq.Post) > 0 || len(rq.Files) > 0) && r.Intn(2) == 0 {
+			rq.DeleteSpill = true
+		}
+		return rq
+	}
 	hdrs := func() [][2]string {
 		if r.Intn(3) == 0 {
 			return nil
@@ -367,13 +469,13 @@ func genSeries(r *rand.Rand) seriesJSON {
 			val = "capture"
 		}
 		g, p := pick()
-		sj.Requests = append(sj.Requests, sreqJ{Trigger: val, Get: g, Post: p, Headers: hdrs(), NoCT: len(p) > 0 && r.Intn(3) == 0})
+		sj.Requests = append(sj.Requests, decorate(sreqJ{Trigger: val, Get: g, Post: p, Headers: hdrs(), NoCT: len(p) > 0 && r.Intn(3) == 0}, true))
 		g, p = pick()
 		plain := sreqJ{Get: g, Post: p, Headers: hdrs(), NoCT: len(p) > 0 && r.Intn(3) == 0}
 		if r.Intn(4) == 0 {
 			plain.Trigger = "nothing" // a header value no rule reacts to
 		}
-		sj.Requests = append(sj.Requests, plain)
+		sj.Requests = append(sj.Requests, decorate(plain, false))
 	}
 	// the last request of a cycle: its verdict depends on its arguments being visible
 	sj.Requests = append(sj.Requests, sreqJ{Get: [][2]string{{"user", "attack"}}})
@@ -382,6 +484,12 @@ func genSeries(r *rand.Rand) seriesJSON {
 	}
 	if freshNames {
 		sj.Triggers = append(sj.Triggers, "freshnames")
+	}
+	if uploads {
+		sj.Triggers = append(sj.Triggers, "uploads")
+	}
+	if spill {
+		sj.Triggers = append(sj.Triggers, "spill")
 	}
 	return sj
 }
